@@ -222,13 +222,19 @@ func (p *pathCtx) constrainAlphabet(v *sym.Term, alpha string) {
 	}
 	var cs []*sym.Term
 	seen := map[byte]bool{}
+	var dom []uint64
 	for k := 0; k < len(alpha); k++ {
 		if seen[alpha[k]] {
 			continue
 		}
 		seen[alpha[k]] = true
 		cs = append(cs, sym.Eq(v, sym.BV(8, uint64(alpha[k]))))
+		dom = append(dom, uint64(alpha[k]))
 	}
+	if p.dom == nil {
+		p.dom = map[string][]uint64{}
+	}
+	p.dom[v.Name] = dom
 	p.addPC(sym.Or(cs...))
 }
 
@@ -524,6 +530,33 @@ func init() {
 	}
 	intrinsics["sort.Slice"] = sortSlice
 	intrinsics["sort.SliceStable"] = sortSlice
+
+	// regexp compilation of a constant pattern is memoised per worker: the compiled value is
+	// immutable and independent of the path condition (the real regexp code is still what runs).
+	reCompile := func(must bool) externalFn {
+		return func(fr *frame, args []value) value {
+			i := fr.i
+			pat, ok := args[0].(string)
+			if !ok {
+				pat = i.concValue(args[0], "regexp pattern").(string)
+			}
+			if i.ws.regexps == nil {
+				i.ws.regexps = map[string]value{}
+			}
+			key := pat
+			if must {
+				key = "M:" + pat
+			}
+			if v, ok := i.ws.regexps[key]; ok {
+				return v
+			}
+			v := callBody(i, fr.caller, nil, fr.fn, []value{pat}, nil)
+			i.ws.regexps[key] = v
+			return v
+		}
+	}
+	intrinsics["regexp.MustCompile"] = reCompile(true)
+	intrinsics["regexp.Compile"] = reCompile(false)
 
 	intrinsics["os.Getenv"] = func(fr *frame, args []value) value { return "" }
 	intrinsics["runtime.Gosched"] = nop
